@@ -443,6 +443,12 @@ class VPyList(VTuple):
     pylist = True
 
 
+class VPyConstSet(VTuple):
+    """a set / frozenset literal of python constants of mixed types ({True, 1, "yes"}): python-level, immutable;
+    supports only `x in s` (hashing x first: an unhashable x raises TypeError), len and iteration"""
+    pyconstset = True
+
+
 class VRec(V):
     def __init__(self, fields, t):
         self.fields = dict(fields)
